@@ -282,10 +282,12 @@ def op_dir_rename(rng, spec):
     if not g:
         return None
     p, t = rng.choice(g)
-    ents = [e for e in t["dir"] if "c" in e and e["p"] != "@name"]
+    ents = [e for e in t["dir"] if ("c" in e or e.get("d")) and e["p"] != "@name"]
     if not ents:
         return None
-    e = rng.choice(ents)
+    empties = [e for e in ents if e.get("d")]
+    # (an empty directory is an entry too: its name is all there is to see of it)
+    e = rng.choice(empties) if empties and rng.chance(0.5) else rng.choice(ents)
     old = e["p"]
     d = os.path.dirname(old)
     e["p"] = (d + "/" if d else "") + "rn%d" % rng.intn(1000)
@@ -421,6 +423,9 @@ def op_dir_add_entry(rng, spec):
         t["dir"] = [o for o in t["dir"] if o.get("l") != e["p"]]
         return "remove entry %s from dir output of %s" % (e["p"], rs.label(p, t["name"]))
     n = "extra%d" % rng.intn(1000)
+    if rng.chance(0.3):
+        t["dir"].append({"p": rng.choice(["", "sub/", "sub/deep/"]) + n, "d": True})
+        return "add empty directory %s to dir output of %s" % (n, rs.label(p, t["name"]))
     t["dir"].append({"p": rng.choice(["", "sub/", "sub/deep/"]) + n, "c": "added %d" % rng.intn(1000), "x": False})
     return "add entry %s to dir output of %s" % (n, rs.label(p, t["name"]))
 
